@@ -972,10 +972,14 @@ def _compute_delj(dx, MInt, VInt, axis=0):
         # for functioning with MInt.
         upslice = [nuax for ii in range(MInt.ndim)]
         upslice [axis] = slice(None)
+        upslice = tuple(upslice)
 
         wj = 2 *MInt*dx[upslice]
-        epsj = numpy.exp(wj/VInt[upslice])
-        delj = (-epsj*wj + epsj * VInt[upslice] - VInt[upslice])/(wj - epsj*wj)
+        with numpy.errstate(over='ignore', invalid='ignore', divide='ignore'):
+            epsj = numpy.exp(wj/VInt[upslice])
+            delj = (-epsj*wj + epsj * VInt[upslice] - VInt[upslice])/(wj - epsj*wj)
+            # Where exp overflowed, use the limit of the expression as epsj -> inf.
+            delj = numpy.where(numpy.isinf(epsj), 1 - VInt[upslice]/wj, delj)
         # These where statements filter out edge case for delj
         delj = numpy.where(numpy.isnan(delj), 0.5, delj)
         delj = numpy.where(numpy.isinf(delj), 0.5, delj)
